@@ -59,6 +59,58 @@ def render_tok(rnd, depth, names):
     return ("0x" + h) if (rnd.random() < 0.7 or ln == 0) else h
 
 
+INLINE = ("echo", "hex", "int", "reverse", "sha256", "ripemd160", "hash256", "hash160", "prefix_compact_size")
+
+
+def render_word_forms(rnd, names):
+    """bracket bodies with the word forms the tokenizer fix d463b4a is about: a group is part of the word it occurs in,
+    the word ends at the next separator.  Glued words and inline calls are outside the grammar of the statement
+    (compared implementation vs model); a comment directly behind a group is inside it."""
+    def plain():
+        return render_tok(rnd, 9, names)
+
+    def group():
+        inner = [render_tok(rnd, 7, names) for _ in range(rnd.choice((0, 1, 2, 3)))]
+        return "[" + rnd.choice(("", " ")) + " ".join(inner) + rnd.choice(("", " ")) + "]"
+    k = rnd.randrange(9)
+    if k == 0:
+        w = plain() + group()                                   # OP_1[OP_2]
+    elif k == 1:
+        w = group() + plain()                                   # [OP_2]OP_1, []5
+    elif k == 2:
+        w = group() + group()                                   # [a][b]
+    elif k == 3:
+        w = group() + "#" + rnd.choice(("", "c", " a comment ] [ 0x00", "[")) + "\n" + plain()     # comment glued to a group
+    elif k == 4:
+        w = group() + "#" + rnd.choice(("", "trailing comment"))                                   # ... to the end of the text
+    elif k == 5:
+        w = rnd.choice(INLINE) + "(" + group() + ")"           # sha256([1 2])
+    elif k == 6:
+        w = rnd.choice(INLINE) + "(" + rnd.choice(INLINE) + "(" + rnd.choice((group(), plain())) + "))"
+    elif k == 7:
+        w = rnd.choice(INLINE) + "(" + plain() + ")"
+    else:
+        w = plain() + group() + plain() + "#x\n" + group()
+    sep = rnd.choice((" ", " ", "\t", "\n", "  "))
+    before = [plain() for _ in range(rnd.choice((0, 1, 2)))]
+    after = [plain() for _ in range(rnd.choice((0, 1, 2)))]
+    body = sep.join(before + [w] + after)
+    return "[" + rnd.choice(("", " ")) + body + rnd.choice(("", " ")) + "]"
+
+
+def depth_lines():
+    """the nesting limit of Value::DepthGuard (200 levels; a plain token is level 1): brackets and inline calls"""
+    progs = []
+    for n in (1, 2, 100, 198, 199, 200, 201, 202, 230):
+        progs.append(["[" * n + "OP_1" + "]" * n])
+        progs.append(["[" * n + "]" * n])
+        progs.append(["[ " * n + "5 [OP_DUP] " + "] " * n])
+        progs.append(["echo(" * n + "1" + ")" * n])
+        progs.append(["[" + "reverse(" * n + "0x0102" + ")" * n + "]"])
+        progs.append(["[" * (n // 2) + "echo(" * (n - n // 2) + "7" + ")" * (n - n // 2) + "]" * (n // 2)])
+    return ["BTCC " + " ".join((w.encode("latin1").hex() or "-") for w in p) for p in progs]
+
+
 def lines(ctx):
     rnd = random.Random(ctx.seed * 101 + 7)
     quick = ctx.tier == "quick"
@@ -103,6 +155,17 @@ def lines(ctx):
             continue
         words = text.split(" ")
         progs.append([render_tok(rnd, 9, names)] + words + [render_tok(rnd, 9, names)])
+    # words glued to groups, comments directly behind a group, inline calls with bracket arguments (inside bodies, and
+    # the same text split over several argv words where it has no tab / newline)
+    for s_ in ("[[OP_2] OP_1]", "[sha256([1 2]) OP_1]", "[[OP_2]#c\nOP_1]", "[[]5]", "[[OP_2]OP_1]", "[OP_1[OP_2]]", "[[OP_2][OP_3]]", "[5[]]",
+               "[[]55]", "[[OP_1]#]", "[[OP_1]#", "[int(0x0102030405) OP_1]", "int(0x0102030405)", "[hash160([OP_1 [OP_2]]) [echo([])]]",
+               "[a]b", "[[a]b]", "[a][b]", "[[OP_1]]]", "[[OP_1] ]]", "[OP_1 ] OP_2]", "sha256([1 2])", "[reverse([1 2 3])#x\n]"):
+        progs.append([s_])
+    for _ in range(1500 if quick else 40000):
+        text = render_word_forms(rnd, names)
+        progs.append([text])
+        if rnd.random() < 0.3 and "\n" not in text and "\t" not in text:
+            progs.append([render_tok(rnd, 9, names)] + [w for w in text.split(" ")] + [render_tok(rnd, 9, names)])
     out = []
     for p in progs:
         out.append("BTCC " + " ".join((w.encode("latin1").hex() or "-") for w in p))
@@ -171,6 +234,14 @@ def run(ctx):
     ingram = sum(1 for s in spec if s != "OUT-OF-GRAMMAR")
     ctx.compare("btcc-inprocess", ls, impl, model, spec2, region=region, nontrivial=lambda c, i: i.startswith("OK"))
     ctx.notes.append({"programs_in_grammar": ingram, "programs_total": len(ls)})
+    # the nesting limit (value.h DepthGuard): the grammar of the statement has none, so this stream compares the
+    # implementation with the model (theorems btcc_eq_compile / btcc_refuses_deep state both sides of the limit)
+    dl = depth_lines()
+    dimpl = ctx.harness(dl)
+    dmodel = ctx.driver(dl, "model")
+    ctx.compare("btcc-depth-limit", dl, dimpl, dmodel, dmodel, nontrivial=lambda c, i: i.startswith("OK") or i == "EXIT1")
+    if not any(i == "EXIT1" for i in dimpl) or not any(i.startswith("OK") for i in dimpl):
+        ctx.violation(dl[0], {"why": "the depth-limit stream must contain accepted and refused programs", "impl": dimpl[:6]})
     # every push the assembler emits (for in-grammar programs) satisfies the minimal-push rule
     bad = 0
     import re
